@@ -1296,3 +1296,52 @@ Example C08_tr_case_chars_run :
   TrViOp.op_show (CLiteExt.callx TrViOp.ideal_ext GenCFuncs.cprog 50 8 GenCFuncs.F_vi_case (map CLite.VInt [0; 1; 1; 2; 0; 126]%Z) (TrViOp.op_mem 0 1))
   = Some (CLite.VInt 16, Some [CLite.VInt 1], Some [CLite.VInt 2], [map CLite.VInt [2; 0; 2; 97; 66; 10; 67; 68; 101; 10]%Z; map CLite.VInt [3; 0; 1; 2; 0]%Z]).
 Proof. exact TrViOp4.case_run_chars. Qed.
+
+(* ---- lbuf_cp, the field o_cp of the record TrViOp.oracles (lbuf_region's middle rows; coq/TrLbufCp.v, coq/TrLbufCpUse.v; lbuf_cp itself:
+   C04_tr_lbuf_cp in Properties_C04.v).  o_cp says `ext X_lbuf_cp [lb; b; e] m = fresh (cp_b lines b e) m`: the pointer is block `length m` and
+   the new memory is m plus ONE block that holds exactly the string.  The real function does not do that, and C08_cp_not_exact proves it: for
+   every oracle that answers X_lbuf_cp by running the translated lbuf_cp the answer is NEVER `fresh ...` -- block `length m` is the struct sbuf,
+   freed before the return (an empty block in CLite's memory), the text is in a block behind it, that block is longer than the string (sbuf.c's
+   capacity), and data blocks abandoned while the buffer grew stay behind as freed blocks.  C08_tr_cp_discharged is the strongest true variant
+   (TrLbufCpUse.fresh_p): the answer is a pointer to the start of a block that did not exist in m and starts with exactly cp_b lines b e plus
+   the terminator, every block of m is unchanged, block `length m` is freed.  Side conditions o_cp leaves out: the line count and end fit an int,
+   the copy is at most 500 MB, one unit of loop fuel per row.  The theorems of TrViOp*.v that use o_cp (C08_tr_lbuf_region and what is built
+   on it) therefore hold for the idealised allocator of the record, not literally for the translated lbuf_cp: their memory equations name
+   block indices. *)
+From NV Require CLite CLiteProps CLiteExt GenCFuncs TrLbufBase TrMot TrViOp TrLbufCp TrLbufCpUse.
+Theorem C08_tr_cp_discharged : forall (ext : nat -> list CLite.val -> CLite.mem -> CLite.res (CLite.val * CLite.mem)) (fuel d : nat)
+    (m : CLite.mem) (lb bln : nat) (lbs : list nat) (lines : list bytes) (b e : Z),
+  (forall args m0, ext GenCFuncs.X_lbuf_cp args m0 = CLite.callf GenCFuncs.cprog fuel (S (S (S (S d)))) GenCFuncs.F_lbuf_cp args m0) ->
+  TrMot.lbuf_at m lb bln lbs lines -> (0 <= b)%Z -> TrLbufBase.i32 e -> (Z.of_nat (length lines) <= 2147483647)%Z ->
+  (Z.of_nat (length (TrViOp.cp_b lines b e)) <= 500000000)%Z -> (Z.to_nat (e - b) < fuel)%nat ->
+  exists pb m' rest, ext GenCFuncs.X_lbuf_cp [CLite.VPtr lb 0%Z; CLite.VInt b; CLite.VInt e] m = CLite.Ok (CLite.VPtr pb 0%Z, m') /\
+    nth_error m' pb = Some (CLite.cstr_block (CLiteProps.zb (TrViOp.cp_b lines b e)) ++ rest) /\
+    (length m < pb < length m')%nat /\ nth_error m' (length m) = Some [] /\
+    (forall k, (k < length m)%nat -> nth_error m' k = nth_error m k).
+Proof. exact TrLbufCpUse.tr_cp_discharged_C08. Qed.
+Print Assumptions C08_tr_cp_discharged.
+
+Theorem C08_cp_not_exact : forall (ext : nat -> list CLite.val -> CLite.mem -> CLite.res (CLite.val * CLite.mem)) (fuel d : nat)
+    (m : CLite.mem) (lb bln : nat) (lbs : list nat) (lines : list bytes) (b e : Z),
+  (forall args m0, ext GenCFuncs.X_lbuf_cp args m0 = CLite.callf GenCFuncs.cprog fuel (S (S (S (S d)))) GenCFuncs.F_lbuf_cp args m0) ->
+  TrMot.lbuf_at m lb bln lbs lines -> (0 <= b)%Z -> TrLbufBase.i32 e -> (Z.of_nat (length lines) <= 2147483647)%Z ->
+  (Z.of_nat (length (TrViOp.cp_b lines b e)) <= 500000000)%Z -> (Z.to_nat (e - b) < fuel)%nat ->
+  ext GenCFuncs.X_lbuf_cp [CLite.VPtr lb 0%Z; CLite.VInt b; CLite.VInt e] m <> TrViOp.fresh (TrViOp.cp_b lines b e) m.
+Proof. exact TrLbufCpUse.cp_not_exact_C08. Qed.
+Print Assumptions C08_cp_not_exact.
+
+(* not vacuous, and the translated lbuf_cp RUNS on the buffer of C08_tr_region_run ("ab\n", "cde\n", "f\n"): lbuf_cp(xb, 1, 3) returns block
+   length m + 1, which starts with "cde\nf\n" and the terminator = cp_b of rows 1..2 and is 128 cells long; block length m is freed; the blocks of m
+   are unchanged; the memory satisfies TrMot.lbuf_at. *)
+Example C08_tr_cp_runs :
+  let m := TrViOp.op_mem 0 0 in let g := length GenCFuncs.cglobals in
+  (match CLite.callf GenCFuncs.cprog 50 8 GenCFuncs.F_lbuf_cp [CLite.VPtr g 0%Z; CLite.VInt 1%Z; CLite.VInt 3%Z] m with
+   | CLite.Ok (CLite.VPtr pb 0%Z, m') => pb = S (length m) /\ firstn 7 (nth pb m' []) = CLite.cstr_block (CLiteProps.zb (TrViOp.cp_b TrViOp.op_lines 1 3)) /\
+       length (nth pb m' []) = 128%nat /\ nth_error m' (length m) = Some [] /\ firstn (length m) m' = m
+   | _ => False
+   end) /\
+  TrMot.lbuf_at m g (g + 1) [g + 2; g + 3; g + 4]%nat TrViOp.op_lines /\
+  (forall args m0, TrLbufCpUse.ext_cp 50 4 GenCFuncs.X_lbuf_cp args m0 = CLite.callf GenCFuncs.cprog 50 8 GenCFuncs.F_lbuf_cp args m0).
+Proof.
+  cbv zeta. split; [vm_compute; repeat split; reflexivity|]. split; [exact (TrViOp.ed_lb _ _ _ _ _ (TrViOp.op_mem_ed 0 0))|exact (TrLbufCpUse.ext_cp_is 50 4)].
+Qed.
